@@ -911,3 +911,18 @@ SPECS["C09"]["level_text"] += (' Props/C09H (track anch) lifts the method restri
     '(enc_lag_struct) and decoder lag 0 (dec_lag_zero_world) hold for ALL input methods (EncWorld.ACall: borrow, copy, anchored reads). '
     'C09H.enc_lag_le_partial is still `_partial`, for ONE reason: the constant bound takes the in-capacity hypothesis (as C09W); C09G discharges it for '
     'borrow/copy input only, and with anchored input the constant is max(2^20, largest read_n count), not 2^20.')
+SPECS["C17"]["lean_modules"] += ["Woodpile.Props.C17W"]
+SPECS["C17"]["theorems"] += [
+    "Woodpile.Props.C17W.codec_read_n",
+    "Woodpile.Props.C17W.encode_read_spec",
+    "Woodpile.Props.C17W.encode_read_failed_bump",
+    "Woodpile.Props.C17W.read_is_feed_of_delivered",
+    "Woodpile.Props.C17W.dec_read_is_feed_of_delivered",
+]
+SPECS["C17"]["level_text"] += (' Props/C17W (track anch): the codec-level clauses. Encoder/Decoder read_n, encode_read and decode_read are Model functions now '
+    '(Model/EncWorld: readOwn, encodeRead, decodeRead - the ones Driver/CodecW replays for `feed a` / `feed_read`): the codec\'s read_n is ReadN.readNCore on the '
+    'iovec\'s own arena with ReadN.readN\'s arena effect (so read_n_spec / read_n_releases_unread apply verbatim), returns a slice of at most count bytes holding '
+    'exactly the bytes read, and leaves the iovec\'s slices and bytes untouched (codec_read_n); between the calls of any encoder run encode_read never panics, a '
+    'failed read changes nothing but the arena, whose bump pointer is back where ensure_capacity left it, and a successful one leaves the state encode of exactly '
+    'those bytes leaves (encode_read_spec, encode_read_failed_bump); in any run an encode_read / decode_read can be replaced by encode / decode of the delivered '
+    'bytes (by nothing when it failed) without changing output or verdict (read_is_feed_of_delivered, dec_read_is_feed_of_delivered).')
